@@ -397,6 +397,8 @@ type run struct {
 	dbOf    map[int]*dkv.DB
 	failed  bool
 	serial  int
+	byID    map[string]*opNode // every operator node of the behaviour (ids are unique)
+	reuseNo int
 }
 
 func (r *run) violate(step int, what string, exp, obs any) {
@@ -455,7 +457,31 @@ func (r *run) deploy(step int, n int, regime string, st mbt.Step) bool {
 	// InPlace: a deploy to the same number of operators re-deploys the running operators themselves (same Operator
 	// objects, same ids, same storage directories), as jobs.Job does when it re-assembles with surviving workers
 	inPlace := r.in.CfgBool("InPlace", false) && r.cur != nil && r.cur.n == n
-	if r.cur != nil && !inPlace {
+	// Reuse: the surviving workers of a job that re-assembles keep their Operator objects (ids, directories), whatever
+	// the new operator count is, and need not keep their position in the operator list: the first min(old, n) positions
+	// are taken by the old operators in rotated order, the rest by new ones
+	var kept []*opNode
+	if r.in.CfgBool("Reuse", false) && r.cur != nil && !inPlace {
+		old := r.cur.nodes
+		rot := (r.reuseNo + 1) % len(old)
+		r.reuseNo++
+		kept = append(append([]*opNode{}, old[rot:]...), old[:rot]...)
+		if len(kept) > n {
+			for _, nd := range kept[n:] {
+				nd.op.Halt()
+				nd.cancel()
+			}
+			for _, nd := range kept[n:] {
+				select {
+				case <-nd.done:
+				case <-time.After(2 * time.Second):
+				}
+			}
+			kept = kept[:n]
+		}
+		r.res.Count("operators_redeployed_at_another_position_or_count", len(kept))
+	}
+	if r.cur != nil && !inPlace && kept == nil {
 		for _, nd := range r.cur.nodes {
 			nd.op.Halt()
 			nd.cancel()
@@ -468,7 +494,10 @@ func (r *run) deploy(step int, n int, regime string, st mbt.Step) bool {
 		}
 	}
 	g := &generation{n: n, job: &opkit.JobRec{}, ks: partitioning.NewKeySpace(r.count, n)}
-	byID := map[string]*opNode{}
+	if r.byID == nil {
+		r.byID = map[string]*opNode{}
+	}
+	byID := r.byID
 	ops := make([]proto.Operator, n)
 	if inPlace {
 		g.job, g.nodes = r.cur.job, r.cur.nodes
@@ -478,7 +507,15 @@ func (r *run) deploy(step int, n int, regime string, st mbt.Step) bool {
 		}
 		r.res.Count("redeploys_in_place", 1)
 	}
-	for j := 0; j < n && !inPlace; j++ {
+	if kept != nil {
+		g.job = r.cur.job
+		for j, nd := range kept {
+			nd.cluster = g
+			g.nodes = append(g.nodes, nd)
+			ops[j] = nd
+		}
+	}
+	for j := len(kept); j < n && !inPlace; j++ {
 		r.serial++
 		id := fmt.Sprintf("g%do%d-%03d", len(r.gens)+1, j, r.serial)
 		nd := &opNode{id: id, h: &refHandler{}, done: make(chan error, 1), cluster: g}
